@@ -522,9 +522,9 @@ func (x *Exec) enterLoop(st *State, fr *frame, li *loopInfo) bool {
 	lname := fmt.Sprintf("loop%d", li.ordinal)
 	inv := func(phase string) {
 		ctx := x.localCtx(st, fr, li)
-		// automatic invariant: range index >= -1
+		// automatic invariant of range loops: -1 <= index and index+1 <= length of the ranged value
 		if v, ok := ctx.lookup("$i"); ok {
-			x.oblige(st, fr.fn, "inv-"+phase, lname+"/auto-rangeindex", "(>= "+v.T+" (- 1))")
+			x.oblige(st, fr.fn, "inv-"+phase, lname+"/auto-rangeindex", and("(>= "+v.T+" (- 1))", x.rangeBound(st, fr, li, v.T)))
 		}
 		if spec == nil {
 			return
@@ -571,6 +571,7 @@ func (x *Exec) enterLoop(st *State, fr *frame, li *loopInfo) bool {
 	ctx := x.localCtx(st, fr, li)
 	if v, ok := ctx.lookup("$i"); ok {
 		st.assume("(>= " + v.T + " (- 1))")
+		st.assume(x.rangeBound(st, fr, li, v.T))
 	}
 	if spec != nil {
 		for _, c := range spec.Inv {
@@ -1407,4 +1408,18 @@ func (e *Engine) sourceLine(file string, line int) string {
 		return ls[line-1]
 	}
 	return ""
+}
+
+// rangeBound: in a range loop over a slice/array/string the header compares index+1 with the length computed before the loop.
+func (x *Exec) rangeBound(st *State, fr *frame, li *loopInfo, idx string) string {
+	for _, in := range li.header.Instrs {
+		if iff, ok := in.(*ssa.If); ok {
+			if b, ok := iff.Cond.(*ssa.BinOp); ok && b.Op == token.LSS {
+				if lv, ok := fr.regs[b.Y]; ok && lv.T != "" {
+					return "(<= (+ " + idx + " 1) (ite (>= " + lv.T + " 0) " + lv.T + " 0))"
+				}
+			}
+		}
+	}
+	return "true"
 }
